@@ -46,6 +46,13 @@ CHECKS = {
    design_ref="DESIGN.md section 6 (C07)",
    note="Equality of arguments = Python equality for hashable atoms, identity for arrays and funsors. A constructor call that raises under an injected collection/exception is an observation. RESTART (new interpreter) is not implemented; parametrised-type caches are exercised but their size is not part of I4.",
    technique="deterministic simulation: seeded construct/drop/collect/realloc/pickle histories with injected collections and exceptions against a reference intern map"),
+ "C14": dict(
+   engine="rng",
+   category="exploration",
+   text="The simulator owns the draw stream: numpy.random.rand/randn are replaced by a per-run deterministic stream, and in edge runs ~70% of the uniform draws are replaced by boundary values of the row's own CDF (0.0, the smallest subnormal, breakpoints and their float neighbours, 1-2^-53), with reach probes for 'draw on a leading zero-mass cell' and 'draw >= final CDF value'. Per draw, exact identities: inputs/output of the sample; exactly one finite point per (particle, batch element), lying in the support; total mass equal to the original's, both by direct summation and through funsor's own Delta reduction rules; Gaussians: zero noise gives the (conditional) mean and unit noise vectors give columns A with A A^T = the (conditional) covariance (dense numpy model of the sampler's contract), marginal mass preserved; Deltas: value at/away from the point, unit-mass reduce and Integrate identities. Determinism: the same stream after a prefix of unrelated events (gc, fresh-name jump, dispatch-cache drop, other work) and in a second hash world must give the byte-identical sample.",
+   design_ref="DESIGN.md section 6 (C14)",
+   note="numpy backend only (funsor's own inverse-CDF sampler). The reduce/Integrate identities are claimed for unit-mass Deltas only, as the property states. Mass identities use rtol 1e-6; support and range are exact.",
+   technique="deterministic simulation: owned random stream with injected boundary draws; per-draw exact identities; prefix/world determinism"),
  "C17": dict(
    engine="ctxstack",
    category="fault_enumeration",
@@ -86,6 +93,7 @@ def main():
             {"name": "confluence", "path": "checks/c02.py", "serves_properties": ["C02"], "kind_free_text": "program executor under a rule-dispatch seam; decline/disable faults; fork per run; cross-world comparison"},
             {"name": "confluence+memo", "path": "checks/c03.py", "serves_properties": ["C03"], "kind_free_text": "per-call interpretation scheduler, between-event faults, Memoize model"},
             {"name": "intern", "path": "checks/c07.py", "serves_properties": ["C07"], "kind_free_text": "history simulator over intern tables with scheduled GC, id recycling, pickle; reference map"},
+            {"name": "rng", "path": "checks/c14.py", "serves_properties": ["C14"], "kind_free_text": "random-stream seam with boundary-draw injection; dense reference model for Gaussian samples"},
             {"name": "ctxstack", "path": "checks/c17.py", "serves_properties": ["C17"], "kind_free_text": "stack model + exception injection at internal calls (sys.monitoring)"},
         ],
         "checks": checks,
